@@ -180,7 +180,7 @@ SENSITIVITY = [
     'remove_subscriptions() not updating the local list -> history/owned-list:rm_subs:sub:claims-unknown-instance',
     "filter marker built as 'pywbemfilter:<filter id>:<manager id>' -> history/add_filter:Name-is-not-the-documented-marker, idpairs/add_filter:Name-is-not-the-documented-marker",
     '(quick tier, seed 1, tree with /tmp/proposed_fixes/C18-1-failed-remove-server-drops-owned-lists.diff and without it) remove_server() dropping an owned list only after all its instances were deleted, instead of entry by entry (/tmp/seeded_out/C18/change2.diff) -> history/owned-list:failed-cleanup:filter:claims-instance-it-has-deleted, history/owned-list:failed-cleanup:dest:claims-instance-it-has-deleted (needs a blocked cleanup: 14% of the histories)',
-    '(quick tier, seed 1) remove_destinations()/remove_filter()/remove_subscriptions() dropping the removed path from the owned lists of all registered servers (/tmp/seeded_out/C18/change4.diff) -> history/owned-list:rm_dests:dest:forgets-instance-with-same-path-as-one-removed-on-another-server, same for rm_filter:filter and rm_subs:sub (needs twins: 7% of the histories have a twin removed on one server)',
+    '(quick tier, seed 1) remove_destinations()/remove_filter()/remove_subscriptions() dropping the removed path from the owned lists of all registered servers (/tmp/seeded_out/C18/change4.diff) -> history/owned-list:rm_dests:dest:forgets-instance-with-same-path-as-one-removed-on-another-server, same for rm_filter:filter and rm_subs:sub (needs twins: 3-4% of the histories, a tenth of those with two servers, have a twin removed on one server)',
     '(tree before 40ef205) remove_server() that fails at a referenced filter/destination has already dropped the owned lists of the kinds it was done with, but the server stays registered: get_owned_subscriptions()/get_owned_filters(), add_subscriptions() ... raise KeyError -> history/remove_server:failed-cleanup-leaves-server-registered-without-owned-list; gone with /tmp/proposed_fixes/C18-1-failed-remove-server-drops-owned-lists.diff',
     '(unchanged tree) manager ID not escaped in the discovery patterns -> history/discovery:manager-id-interpreted-as-regex, idpairs/discovery:manager-id-interpreted-as-regex; gone with /tmp/proposed_fixes/C18-manager-id-regex-escape.diff',
 ]
@@ -1685,6 +1685,9 @@ class Machine:
                                 kind == 'sub' or not w.referenced(si, r)):
                             cands.append({'op': op, 'm': mi, 's': si,
                                           'sel': pool.index(r)})
+        subs = [c for c in cands if c['op'] in ('add_subs', 'rm_subs')]
+        if subs and draw(_I10) < 6:
+            cands = subs        # need twin filters and destinations first
         if not cands:
             return None
         return cands[draw(_I1000) % len(cands)]
